@@ -249,3 +249,16 @@ PROPS["C58"] = dict(
     outside="contents of the concatenated address list for pending dials (Vec<Multiaddr> concatenation exhausts 40 GB in CBMC even for one address); ConnectionHandlerSelect polling/poll_close, ToSwarm event mapping in poll(), FromSwarm events that need a live connection (ConnectionEstablished/Closed, DialFailure, ...), #[behaviour(to_swarm)] variants, generic fields",
     stubs=[TRACING, FMT], assumptions=[FORGET], hooks=[],
 )
+
+PROPS["C10"] = dict(
+    group="swarm", files=["c10.rs"],
+    explanation=(
+        "The shutdown-planning kernel of Connection::poll: compute_new_shutdown for every (keep-alive wish, current "
+        "shutdown state, idle timeout, clock) combination — keep-alive always cancels a planned shutdown; without it a "
+        "zero timeout gives Asap, an armed timer is left untouched, otherwise a timer is armed — and "
+        "checked_add_fraction for every (start instant, idle timeout): the armed delay equals the idle timeout whenever "
+        "start + timeout is representable, is never longer, and is always representable."),
+    bounds="all Instants (secs u64, nanos < 10^9) and Durations; halving loop unwound 97 times (a Duration is < 2^94 ns)",
+    outside="WHEN Connection::poll consults the kernel: the four-way idleness condition (no negotiating streams, no requested outbound streams, no active streams not marked ignore_for_keep_alive, handler keep-alive) lives inside Connection::poll over FuturesUnordered/muxer/handler state and is not decided — a change there is not detected; ActiveStreamCounter",
+    stubs=[TRACING, WEBTIME, TIMER], assumptions=[], hooks=["hook: libp2p_swarm::verif_hooks::{new_shutdown_kind, idle_delay} (wrappers calling compute_new_shutdown / checked_add_fraction)"],
+)
